@@ -834,6 +834,7 @@ int main(int argc, char **argv)
         pid_t pid = fork();
         if (pid == 0) {
             setvbuf(stdout, NULL, _IOLBF, 0);
+            alarm(60);   /* a call that never returns ends the case as a crash (signal 14) */
             run_case(argv[1]);
             printf("%s end\n", tok[0]);
             fflush(stdout);
